@@ -128,7 +128,8 @@ InitHist == [hb |-> [a \in Actor |-> <<>>], he |-> [a \in Actor |-> <<>>], cb |-
              stopReq |-> [a \in Actor |-> FALSE], preStop |-> [a \in Actor |-> {}],
              stopAcc |-> [a \in Actor |-> FALSE], late |-> [a \in Actor |-> {}],
              oksend |-> [a \in Actor |-> {}], okcall |-> {}, errcall |-> {},
-             ann |-> [a \in Actor |-> <<>>], ab |-> [a \in Actor |-> <<>>], upfail |-> [a \in Actor |-> FALSE], ninst |-> 0]
+             ann |-> [a \in Actor |-> <<>>], ab |-> [a \in Actor |-> <<>>],
+             qry |-> {}, ctxr |-> {}, upr |-> {}, upfail |-> [a \in Actor |-> FALSE], ninst |-> 0]
 
 InitReg == [ent |-> <<>>, lock |-> "free"]
 
@@ -319,7 +320,8 @@ Query(c, o) ==
   /\ \/ o.op = "stopped" /\ hnd[x].kind \in {"addr", "waddr"}
      \/ o.op = "running" /\ hnd[x].kind = "addr"
   /\ cli' = Instant(c, o, Mid(c), Last(IF (o.op = "stopped") = s THEN "true" ELSE "false", 0, 0, a))
-  /\ UNCHANGED <<act, hnd, rsp, tmr, reg, now, hst>>
+  /\ hst' = [hst EXCEPT !.qry = @ \cup {<<s, act[a].notif # "armed">>}]      \* <<answer "stopped", truth>>
+  /\ UNCHANGED <<act, hnd, rsp, tmr, reg, now>>
 
 \* ---- handle algebra (addr.rs:172-207, addr/*.rs)
 ConvKind(op, kind) ==
@@ -347,7 +349,8 @@ Upgrade(c, o) ==
   /\ CanIssue(c) /\ Owns(c, x) /\ o.op = "upgrade" /\ k # "none" /\ o.nh \notin DOMAIN hnd
   /\ hnd' = IF ok THEN (o.nh :> [kind |-> k, a |-> a, owner |-> o.to, polled |-> hnd[x].polled /\ k = "addr"]) @@ hnd ELSE hnd
   /\ cli' = Instant(c, o, Mid(c), Last(IF ok THEN "ok" ELSE "none", 0, 0, a))
-  /\ hst' = IF ok THEN hst ELSE [hst EXCEPT !.upfail = [@ EXCEPT ![a] = TRUE]]
+  /\ hst' = [(IF ok THEN hst ELSE [hst EXCEPT !.upfail = [@ EXCEPT ![a] = TRUE]])
+               EXCEPT !.upr = @ \cup {<<ok, LiveH(a, StrongKinds)>>}]            \* <<upgraded, a strong handle exists>>
   /\ UNCHANGED <<act, rsp, tmr, reg, now>>
 
 DropH(c, o) ==
@@ -468,7 +471,8 @@ CtxSubmit(a, k) ==    \* Context::stop / restart (context.rs:82-88, 299-305): up
   LET ok == FoHeld(a) /\ act[a].rx = "open"
       p  == [k |-> k, m |-> <<a, act[a].inc * 100 + act[a].ip>>, rs |-> "none", scr |-> <<>>, src |-> "ctx"]
   IN /\ act' = [act EXCEPT ![a] = IF ok THEN [Enq(@, p, DEAD) EXCEPT !.ip = @ + 1] ELSE [@ EXCEPT !.ip = @ + 1]]
-     /\ hst' = IF k = "stop" THEN (IF ok THEN HStopAccepted(HStopBegin(hst, a), a) ELSE HStopBegin(hst, a)) ELSE hst
+     /\ hst' = [(IF k = "stop" THEN (IF ok THEN HStopAccepted(HStopBegin(hst, a), a) ELSE HStopBegin(hst, a)) ELSE hst)
+                  EXCEPT !.ctxr = @ \cup {<<ok, LiveH(a, StrongKinds)>>}]
      /\ UNCHANGED <<hnd, cli, rsp, tmr, reg, now>>
 CtxSubmitOk(a) == FoHeld(a) /\ act[a].rx = "open"
 
